@@ -45,11 +45,28 @@ def axioms():
     return '| property | statements checked | axioms (`Print Assumptions`) |\n|---|---|---|\n' + '\n'.join(out)
 
 
+def perproperty():
+    claims = json.load(open(os.path.join(HERE, 'tools/claims.json')))
+    extras = json.load(open(os.path.join(HERE, 'tools/design_extras.json')))
+    out = []
+    for l in open(os.path.join(HERE, 'properties.jsonl')):
+        j = json.loads(l)
+        pid = j['id']
+        out.append('### %s — %s\n' % (pid, j['title']))
+        c = claims.get(pid, {})
+        if c.get('claimed'):
+            out.append('*Proved and tied.* ' + c['text'] + '\n')
+            out.append('*Trusted / limits.* ' + c['note'] + '\n')
+        if extras.get(pid):
+            out.append(extras[pid] + '\n')
+    return '\n'.join(out)
+
+
 def main():
     p = os.path.join(HERE, 'DESIGN.md')
     s = open(p).read()
-    for name, fn in (('theorems', theorems), ('matrix', matrix), ('axioms', axioms)):
-        s = re.sub(r'(<!-- BEGIN %s -->\n).*?(<!-- END %s -->)' % (name, name), lambda m: m.group(1) + fn() + '\n' + m.group(2), s, flags=re.S)
+    for name, fn in (('theorems', theorems), ('matrix', matrix), ('axioms', axioms), ('perproperty', perproperty)):
+        s = re.sub(r'(<!-- BEGIN %s -->\n).*?(<!-- END %s -->)' % (name, name), lambda m, fn=fn: m.group(1) + fn() + '\n' + m.group(2), s, flags=re.S)
     open(p, 'w').write(s)
 
 
